@@ -36,7 +36,17 @@ def main():
             ctx.notes.append("leanchecker: " + ("ok" if ok else "FAILED " + log[-300:]))
             if not ok:
                 aud["undischarged"].append(("leanchecker", log[-300:]))
-        mod.run(ctx, drv)
+        try:
+            mod.run(ctx, drv)
+        except common.Infra:
+            raise
+        except Exception:
+            # The harness tripped over what the implementation returned.  If the oracle had already found failing
+            # inputs on the real code, those stand and are reported (the crash is downstream of them); a crash with
+            # nothing found is an infrastructure error (exit 2), never a violation.
+            if not ctx.failures:
+                raise
+            ctx.notes.append("harness aborted after recording failures: " + traceback.format_exc()[-400:])
         ctx.stats["driver_request_lines"] = drv.lines
         return common.finish(ctx, aud, getattr(mod, "extra_coverage", lambda c: None)(ctx))
     except common.Infra as e:
